@@ -159,8 +159,9 @@ func c10Check(c c10Case, rec *evid.Recorder) *Fail {
 					// an illegal token is one byte - or, equally acceptable, the whole
 					// well-formed UTF-8 sequence that starts there (the property fixes
 					// the tiling, not the granularity of illegal input)
-					if r, n := utf8.DecodeRune(src[s:]); r != utf8.RuneError && n > 1 {
-						if eo := lt.Offset(t.End.Line, t.End.Column); eo == s+n-1 || eo == s+n {
+					if r, n := utf8.DecodeRune(src[s:]); r != utf8.RuneError && n > 1 && i+1 < len(toks) {
+						// which of the two it is shows in where the next token starts
+						if ns := lt.Offset(toks[i+1].Start.Line, toks[i+1].Start.Column); ns >= s+n {
 							e = s + n
 						}
 					}
